@@ -3,15 +3,15 @@ LEVEL = "proof"
 TITLE = 'Mailbox cap and store size limit evict oldest-first and only what is necessary'
 DESIGN_REF = "DESIGN.md §4 C08"
 TECHNIQUE = "machine-checked proof in Coq + model/code correspondence check"
-LEVEL_TEXT = 'proof (partial): on the abstract store, for every history and every (cap, maxBytes): cap_bound, cap_keeps_newest, size_bound, evict_global_oldest_prefix (incl. minimality); transported to the file-store model by file_refines_spec (cap). For the memory store with limits the link model->spec is the correspondence check (500 histories over caps {0,1,2,5} x limits {0,1,4 KiB}, GetMessage of every id just returned, oracle = extracted spec), not a theorem.'
-LEVEL_NOTE = 'accounting_exact and fits_then_retrievable are enforced by the oracle on every run (the spec keeps a fitting message; any drift of curSize shows as a wrong eviction) but are not proved for the memory model'
+LEVEL_TEXT = 'proof: for every history and every (cap, maxBytes) incl. 0 = disabled: cap_bound, cap_keeps_newest, size_bound, evict_global_oldest_prefix (with minimality) on the abstract store, which the memory-store model (mem_refines_spec, all limits) and the file-store model (file_refines_spec, cap) refine operation by operation; accounting_exact (enforcer list = live messages in global arrival order, curSize = their total) and fits_then_retrievable are theorems about the memory-store model itself. Tie to /repo: correspondence check (about 700 histories per run over caps {0,1,2,5} x limits {0,1,4 KiB}, GetMessage of every id just returned, oracle = extracted spec).'
+LEVEL_NOTE = "cap_bound / size_bound are stated on the abstract final state; by the refinement theorems every listing either model returns is that state's listing"
 RULE = ("random histories of deliveries of varying sizes (150 B - 5 KB, incl. oversize) interleaved with get/list/seen/remove/purge/visit under caps {0,1,2,5} x size limits {0,1,4 KiB}, 1-3 mailboxes; both stores for the cap, memory store for the size limit; "
         "characters; missing / not-yet-issued / bogus / 'latest' handles, double removes, purge-then-latest) on a fresh real "
         "memory store and a fresh real file store; distinct = distinct input line; non-trivial = at least one add and one "
         "operation on a stored message")
 TRUSTED = ["handles: messages are named by 'k-th add to this mailbox' / 'latest' / a bogus literal; the driver's id<->handle table (Go map) is modelled by StoreSpecImpl.run_impl", 'message content is abstracted to (date, tag, size, seen): the driver checks that from/to/subject/body/mailbox read back equal what the add with that handle wrote and prints the tag only then', 'VisitMailboxes enumeration order (map / readdir order) is not compared: groups are sorted by mailbox on both sides; empty groups are dropped', 'file store: byte-level disk protocol (tmp+rename, unlink order, gob) is not in this model (C10/C11); I/O errors are not modelled', 'memory store: the size enforcer goroutine is modelled as a synchronous sub-step (callers block on md.done); creation of an empty mailbox record by reads is not modelled (unobservable)']
 ASSUMPTIONS = ['maxkb is given in KiB (limit = maxkb*1024 bytes), as mem.New computes it']
-NOT_PROVED = ['accounting_exact_stmt: in MemStore, en_cur = total of en_all and en_all = live messages in arrival order, after every history (needs mem_refines_spec with limits)', 'fits_then_retrievable_stmt: size m <= max -> get (add m) = m on the abstract store and the memory model', 'mem_refines_spec_stmt with limits (see C07)']
+NOT_PROVED = []
 
 
 def nontrivial(kind, ins, outs):
